@@ -17,6 +17,7 @@ mod c14;
 mod c12;
 mod c05;
 mod c03;
+mod c08;
 
 use std::path::PathBuf;
 
@@ -82,6 +83,7 @@ fn main() {
         "c12" => c12::run(&args),
         "c05" => c05::run(&args),
         "c03" => c03::run(&args),
+        "c08" => c08::run(&args),
         "c06" => c06::run(&args),
         "c16" => c16::run(&args),
         "c10" => c10::run(&args),
